@@ -112,7 +112,14 @@ type Deviation struct {
 	Input string `json:"input"`
 }
 
+// FirstBytes: per Go type with an SSZ encoding, which interesting leading bytes a value's own encoding can have.
+type FirstBytes struct {
+	Reachable   []string `json:"reachable"`
+	Unreachable []string `json:"unreachable"`
+}
+
 type Out struct {
+	FirstBytes map[string]*FirstBytes `json:"first_bytes"`
 	Deviations []Deviation `json:"deviations"`
 	ECases   []ECase        `json:"ecases"`
 	DCases   []DCase        `json:"dcases"`
@@ -929,11 +936,13 @@ func typeOracle(types map[string]func() any, data []byte) map[string][5]bool {
 	return res
 }
 
-func (rc *recorder) dispatchCases(data []byte, label string) {
+func (rc *recorder) dispatchCases(data []byte, label string) { rc.dispatchCasesFor(dutyTypes, data, label) }
+
+func (rc *recorder) dispatchCasesFor(duties []core.DutyType, data []byte, label string) {
 	so := typeOracle(signedTypes, data)
 	uo := typeOracle(unsignedTypes, data)
 	prefix := hex.EncodeToString(data[:min(len(data), 24)])
-	for _, d := range dutyTypes {
+	for _, d := range duties {
 		exp := ""
 		if p, _ := safe(func() {
 			psd, err := decodeSigned(d, data)
@@ -1152,6 +1161,25 @@ func wireKeys(t *testing.T, b []byte) []string {
 	return keys
 }
 
+func contains(l []string, x string) bool {
+	for _, y := range l {
+		if x == y {
+			return true
+		}
+	}
+	return false
+}
+
+func remove(l []string, x string) []string {
+	var out []string
+	for _, y := range l {
+		if y != x {
+			out = append(out, y)
+		}
+	}
+	return out
+}
+
 func errorsIs(err, target error) bool {
 	for err != nil {
 		if err == target { //nolint:errorlint
@@ -1286,6 +1314,74 @@ func TestGen(t *testing.T) {
 			enc := encoded{e: ee, val: a, ssz: sb, json: jb}
 			rc.roundTrips(t, enc, true)
 			encs = append(encs, enc)
+		}
+	}
+
+	// ---- leading byte of own SSZ encodings: unmarshal decides between SSZ and JSON by looking at the first
+	// non-space byte, so values whose SSZ encoding starts like JSON ('{', '[', '"'), with white space (followed
+	// by '{'), 0x00 or 0xff are generated for every type that has an SSZ encoding.  The leading field (slot,
+	// index, version, offset) is steered through the encoding itself: the first byte(s) of a valid encoding are
+	// overwritten and the result is kept when it decodes to a value that re-encodes to exactly those bytes
+	// (then it IS the own encoding of that value); otherwise that first byte is unreachable for the type.
+	rc.out.FirstBytes = map[string]*FirstBytes{}
+	leads := [][]byte{{'{'}, {'['}, {'"'}, {' '}, {'\t'}, {'\r'}, {'\n'}, {0x00}, {0xff},
+		{' ', '{'}, {'\t', '{'}, {'\n', '{'}, {'\r', '{'}, {0x0b, '{'}, {0x0c, '{'}, {' ', '\n', '{'}, {'{', '}'}}
+	doneLead := map[string]bool{}
+	for _, enc := range encs {
+		if enc.ssz == nil {
+			continue
+		}
+		if _, isM := enc.val.(ssz.Marshaler); !isM {
+			continue
+		}
+		if doneLead[enc.e.Name] && !thorough {
+			continue
+		}
+		doneLead[enc.e.Name] = true
+		fb := rc.out.FirstBytes[enc.e.GoType]
+		if fb == nil {
+			fb = &FirstBytes{}
+			rc.out.FirstBytes[enc.e.GoType] = fb
+		}
+		for _, lead := range leads {
+			name := hex.EncodeToString(lead)
+			if len(enc.ssz) < len(lead) {
+				continue
+			}
+			b := append([]byte(nil), enc.ssz...)
+			copy(b, lead)
+			ptr := enc.e.New()
+			var err error
+			ok := false
+			if p, _ := safe(func() { err = ptr.(ssz.Unmarshaler).UnmarshalSSZ(b) }); !p && err == nil {
+				if m, isM := deref(ptr).(ssz.Marshaler); isM {
+					if re, err := m.MarshalSSZ(); err == nil && bytes.Equal(re, b) {
+						ok = true
+					}
+				}
+			}
+			rc.stat("first_byte_attempts", 1)
+			if !ok {
+				if !contains(fb.Reachable, name) && !contains(fb.Unreachable, name) {
+					fb.Unreachable = append(fb.Unreachable, name)
+				}
+				continue
+			}
+			if !contains(fb.Reachable, name) {
+				fb.Reachable = append(fb.Reachable, name)
+				fb.Unreachable = remove(fb.Unreachable, name)
+			}
+			v := deref(ptr)
+			jb, sb, _, err := canonical(v)
+			if err != nil {
+				continue // e.g. a version switch that leaves the value without message root
+			}
+			ee := enc.e
+			ee.Name = enc.e.Name + "/first-bytes=" + name
+			ee.KeyName = enc.e.GoType + ":first-bytes=" + name
+			rc.stat("first_byte_values", 1)
+			rc.roundTrips(t, encoded{e: ee, val: v, ssz: sb, json: jb}, true)
+			rc.dispatchCasesFor([]core.DutyType{enc.e.Duty, core.DutyAttester, core.DutyUnknown}, sb, ee.Name+":ssz")
 		}
 	}
 
